@@ -729,9 +729,15 @@ class TimeoutHandler(PoolThread):
         try:
             raise TimeLimitExceeded(job._timeout)
         except TimeLimitExceeded:
-            job._set(job._job, (False, ExceptionInfo()))
+            einfo = ExceptionInfo()
+            job._set(job._job, (False, einfo))
         else:  # pragma: no cover
             pass
+        if getattr(job, '_value', einfo) is not einfo:
+            # its result was processed between the ready() check and
+            # _set(): the job finished inside its limit and must not be
+            # treated as timed out (callback, worker killed).
+            return
 
         # Remove from _pool
         process, _index = self._process_by_pid(job._worker_pid)
